@@ -409,8 +409,10 @@ def rule_ret(ctx):
         tg = Target(ctx, b)
         ret = tg.const_reg_name("RETURN1")
         ikey = "%s:return-register" % b
-        cl = interp.run_fn(fx, tg.crate + "::into_routine::cleanup", [], hooks=[])[1]
-        codes = cl[0].result.items
+        from .abi import emission_auto
+        codes = emission_auto(ctx, tg.crate + "::into_routine::cleanup", [])
+        if codes is None:
+            raise AnalysisError("R-RET: cleanup of %s could not be folded" % b)
         m = isa.Machine(b)
         m.regs[ret] = isa.var("result")
         isa.run(ctx, b, codes, m)
